@@ -81,6 +81,162 @@ fn main() {
             Sec::None => {}
         }
     }
+    // ---- can routing change at run time?  Facts about the routing state, from the source:
+    // the fields of ShardedActorState, every method taking `&mut self`, every assignment to
+    // `num_shards` / in-place mutation of `shards`, and every consumer of a ScalingDecision outside
+    // the load balancer / adaptive actor themselves (non-test code of the whole crate).
+    let mut fields: Vec<(String, String)> = Vec::new();
+    let mut mut_self: Vec<String> = Vec::new();
+    let mut assigns: Vec<String> = Vec::new();
+    {
+        let mut in_struct = false;
+        let mut in_state_impl = false;
+        for (ln, line) in src.lines().enumerate() {
+            let t = line.trim_start();
+            if t.starts_with("#[cfg(test)]") {
+                break;
+            }
+            if t.starts_with("pub struct ShardedActorState") {
+                in_struct = true;
+                continue;
+            }
+            if in_struct {
+                if line.starts_with('}') {
+                    in_struct = false;
+                } else if !t.starts_with("//") && !t.starts_with('#') {
+                    if let Some((n, ty)) = t.split_once(':') {
+                        fields.push((n.trim().trim_start_matches("pub ").to_string(), ty.trim().trim_end_matches(',').to_string()));
+                    }
+                }
+                continue;
+            }
+            if t.starts_with("impl") && t.contains("ShardedActorState") {
+                in_state_impl = true;
+            } else if line.starts_with('}') {
+                in_state_impl = false;
+            }
+            if in_state_impl && t.contains("fn ") && t.contains("&mut self") {
+                let after = t.split("fn ").nth(1).unwrap_or("");
+                mut_self.push(after.chars().take_while(|c| c.is_alphanumeric() || *c == '_').collect());
+            }
+            let squeezed: String = t.split_whitespace().collect::<Vec<_>>().join(" ");
+            let assigns_num = squeezed.contains(".num_shards =") && !squeezed.contains(".num_shards ==");
+            if assigns_num || squeezed.contains("Arc::get_mut") || squeezed.contains("Arc::make_mut") || squeezed.contains("self.shards.push") || squeezed.contains("self.shards =") {
+                assigns.push(format!("sharded_actor.rs:{}: {}", ln + 1, squeezed));
+            }
+        }
+    }
+    let mut consumers: Vec<String> = Vec::new();
+    {
+        fn walk(dir: &std::path::Path, acc: &mut Vec<PathBuf>) {
+            if let Ok(rd) = fs::read_dir(dir) {
+                for e in rd.flatten() {
+                    let p = e.path();
+                    if p.is_dir() {
+                        walk(&p, acc);
+                    } else if p.extension().map(|x| x == "rs").unwrap_or(false) {
+                        acc.push(p);
+                    }
+                }
+            }
+        }
+        let mut files = Vec::new();
+        let root = PathBuf::from(&dep).join("src");
+        walk(&root, &mut files);
+        files.sort();
+        for f in files {
+            println!("cargo:rerun-if-changed={}", f.display());
+            let name = f.strip_prefix(&root).unwrap().display().to_string();
+            if name == "production/load_balancer.rs" || name == "production/adaptive_actor.rs" {
+                continue;
+            }
+            let text = fs::read_to_string(&f).unwrap_or_default();
+            for (ln, line) in text.lines().enumerate() {
+                let t = line.trim_start();
+                if t.starts_with("#[cfg(test)]") {
+                    break;
+                }
+                if t.starts_with("//") {
+                    continue;
+                }
+                let uses_decision = t.contains("ScalingDecision::") || t.contains(".check_scaling(") || t.contains("recommend_scaling") || t.contains("analyze_scaling");
+                let is_decl = t.starts_with("pub async fn check_scaling") || t.starts_with("use ") || t.starts_with("pub use ");
+                // ShardedActorState::check_scaling forwards the question to the adaptive actor and
+                // RETURNS the decision: a forwarder, not a consumer
+                let forwards = name == "production/sharded_actor.rs" && t.starts_with("handle.check_scaling(");
+                if uses_decision && !is_decl && !forwards {
+                    consumers.push(format!("{}:{}: {}", name, ln + 1, t));
+                }
+            }
+        }
+    }
+    // ---- the dispatch layer: (a) the pub fns of ShardedActorState whose body reaches `self.shards`
+    // (a shard mailbox); (b) every call site `<…>state.<pub fn>(` in the other files of
+    // src/production that hold a ShardedActorState (connection handler, TTL manager, servers)
+    let mut mailbox_fns: Vec<String> = Vec::new();
+    {
+        let mut cur: Option<String> = None;
+        let mut in_state_impl = false;
+        for line in src.lines() {
+            let t = line.trim_start();
+            if t.starts_with("#[cfg(test)]") {
+                break;
+            }
+            if t.starts_with("impl") && t.contains("ShardedActorState") {
+                in_state_impl = true;
+            } else if line.starts_with('}') {
+                in_state_impl = false;
+                cur = None;
+            }
+            if !in_state_impl {
+                continue;
+            }
+            if t.starts_with("pub fn ") || t.starts_with("pub async fn ") || t.starts_with("fn ") || t.starts_with("async fn ") {
+                let is_pub = t.starts_with("pub ");
+                let after = t.split("fn ").nth(1).unwrap_or("");
+                let name: String = after.chars().take_while(|c| c.is_alphanumeric() || *c == '_').collect();
+                cur = if is_pub { Some(name) } else { None };
+            }
+            if t.contains("self.shards") && !t.starts_with("//") {
+                if let Some(n) = &cur {
+                    if !mailbox_fns.contains(n) {
+                        mailbox_fns.push(n.clone());
+                    }
+                }
+            }
+        }
+        mailbox_fns.sort();
+    }
+    let mut call_sites: Vec<(String, String)> = Vec::new();
+    {
+        let dir = PathBuf::from(&dep).join("src/production");
+        let mut files: Vec<PathBuf> = fs::read_dir(&dir).map(|rd| rd.flatten().map(|e| e.path()).filter(|p| p.extension().map(|x| x == "rs").unwrap_or(false)).collect()).unwrap_or_default();
+        files.sort();
+        for f in files {
+            let name = f.file_name().unwrap().to_string_lossy().to_string();
+            if name == "sharded_actor.rs" {
+                continue;
+            }
+            let text = fs::read_to_string(&f).unwrap_or_default();
+            if !text.contains("ShardedActorState") {
+                continue;
+            }
+            for (ln, line) in text.lines().enumerate() {
+                let t = line.trim_start();
+                if t.starts_with("#[cfg(test)]") {
+                    break;
+                }
+                if t.starts_with("//") {
+                    continue;
+                }
+                for fname in &state {
+                    if t.contains(&format!("state.{}(", fname)) {
+                        call_sites.push((fname.clone(), format!("{}:{}", name, ln + 1)));
+                    }
+                }
+            }
+        }
+    }
     let list = |v: &Vec<String>| v.iter().map(|s| format!("{:?}", s)).collect::<Vec<_>>().join(", ");
     let out = format!(
         "pub const SHARD_MESSAGES: &[&str] = &[{}];\npub const HANDLE_FNS: &[&str] = &[{}];\npub const STATE_PUB_FNS: &[&str] = &[{}];\npub const CONFIG_PUB_FNS: &[&str] = &[{}];\n",
@@ -88,6 +244,20 @@ fn main() {
         list(&handle),
         list(&state),
         list(&config)
+    );
+    let out = format!(
+        "{}pub const STATE_FIELDS: &[(&str, &str)] = &[{}];\npub const STATE_MUT_SELF_FNS: &[&str] = &[{}];\npub const ROUTING_STATE_MUTATIONS: &[&str] = &[{}];\npub const SCALING_DECISION_CONSUMERS: &[&str] = &[{}];\n",
+        out,
+        fields.iter().map(|(a, b)| format!("({:?}, {:?})", a, b)).collect::<Vec<_>>().join(", "),
+        list(&mut_self),
+        list(&assigns),
+        list(&consumers)
+    );
+    let out = format!(
+        "{}pub const MAILBOX_REACHING_FNS: &[&str] = &[{}];\npub const STATE_CALL_SITES: &[(&str, &str)] = &[{}];\n",
+        out,
+        list(&mailbox_fns),
+        call_sites.iter().map(|(a, b)| format!("({:?}, {:?})", a, b)).collect::<Vec<_>>().join(", ")
     );
     let dest = PathBuf::from(std::env::var("OUT_DIR").unwrap()).join("api_gen.rs");
     fs::write(dest, out).unwrap();
